@@ -352,6 +352,14 @@ func attribute(a applied, ix *docIndex, l locInfo) string {
 	if a.Label != "delete" && len(enclosing) > 0 {
 		enclosing = enclosing[:len(enclosing)-1]
 	}
+	// an element deleted from a LIST (a.Fault is the list): the object that owns the list is the
+	// enclosing one (the path item whose `parameters` lost its only entry: the missing parameter is
+	// legitimately noticed at an operation of that path item)
+	if a.Label == "delete" && len(enclosing) > 0 && a.Tree != nil {
+		if n := a.Tree.at(enclosing); n != nil && n.K == kSeq {
+			enclosing = enclosing[:len(enclosing)-1]
+		}
+	}
 	// a fault on the $ref member itself: {"$ref": …} stands for the referenced
 	// object, the object that owns it (media type, parameter) is the enclosing one
 	if n := len(a.Target); n > 0 && a.Target[n-1] == "$ref" && len(enclosing) > 0 {
